@@ -1,11 +1,12 @@
 //go:build verif
 
 // Driver for property C15 (API v2 codec). Modes:
-//   keys                 pure key/range functions on generated inputs + property oracles (P lines)
-//   replay op m id a...  one pure-function case
-//   catalogue            reflection catalogue of all command types (rows for Gen_Catalogue.v)
-//   dump | leaves        exploration helpers
-//   e2e                  raw/txn workloads under codec v1 / v2 keyspace A / keyspace B on one mock store
+//
+//	keys                 pure key/range functions on generated inputs + property oracles (P lines)
+//	replay op m id a...  one pure-function case
+//	catalogue            reflection catalogue of all command types (rows for Gen_Catalogue.v)
+//	dump | leaves        exploration helpers
+//	e2e                  raw/txn workloads under codec v1 / v2 keyspace A / keyspace B on one mock store
 package main
 
 import (
